@@ -200,6 +200,7 @@ def run_history(args):
         for c, probs in explore(run, pre=[], backend='inproc', ints=names, decide_timeout=5, max_paths=50000):
             res['paths'] += 1
             res['queries'] += c.decision_queries
+            res['solver_seconds'] = res.get('solver_seconds', 0.0) + c.decision_seconds
             if probs and len(res['bad']) < 3:
                 v, model = c.model()
                 res['bad'].append(dict(problems=sorted(set(probs)), model={k: int(x) for k, x in model.items() if x is not None}))
@@ -273,6 +274,7 @@ def main(report, tier, seed, workers, calibrate=False):
         report.record(r['name'], verdict, r['seconds'], backend='z3py-inproc', sha=f"{r['paths']}p{r['queries']}q:{r['idx']}",
                       group=r['name'].split(':')[0] + ' layout', detail=dict(paths=r['paths'], queries=r['queries']))
         solver.STATS.queries += r['queries']
+        solver.STATS.seconds += r.get('solver_seconds', 0.0)
         solver.STATS.by_backend['z3py-inproc'] = solver.STATS.by_backend.get('z3py-inproc', 0) + r['queries']
         for b in r['bad'][:1]:
             rp = replay_concrete(tier, r['idx'], b['model'])
